@@ -53,6 +53,10 @@ def combos(tier):
                     else:
                         C.append(dict(base, group="P-384", gids="23,24", shares=1, hrr=1, sizes="10,17000"))
                         C.append(dict(base, group="P-521", gids="29,25", shares=1, hrr=1, resume="ticket", sizes="10"))
+                if ver in ("T12", "T13") and sid in (0xc02f, 0x003d, 0x1301, 0x1303):
+                    # RFC 6066 max_fragment_length asked for by the client (whichever stack that is)
+                    for mf in (512, 2048):
+                        C.append(dict(base, maxfrag=mf, sizes="1,600,5000,17000"))
                 if ver == "T13":
                     # record padding on both sides (RFC 8446 5.4), 0-RTT data from the independent client (which sends a
                     # compatibility ChangeCipherSpec between ClientHello and early data), and a second connection restricted to a
@@ -120,7 +124,7 @@ def run(tier, seed):
     known = runner.load_known(prop); known_hit = {}
     for ln in v["rejects"]:
         i, c = idx[ln]; d = json.loads(lines[ln - 1])
-        sig = {k: str(c.get(k, "")) for k in ("role", "ver", "oname", "key", "cauth", "resume", "group", "sigalgs", "pad", "early", "oname2")}
+        sig = {k: str(c.get(k, "")) for k in ("role", "ver", "oname", "key", "cauth", "resume", "group", "sigalgs", "pad", "early", "oname2", "maxfrag")}
         sig["obs"] = "done=%s odone=%s mres=%s ores=%s dataok=%s odataok=%s mver=%s ocipher=%s" % (d["done"], d["odone"], d["mres"], d["ores"], d["dataok"], d["odataok"], d["mver"], d["ocipher"]) + (" earlyok=%s oearly=%s" % (d.get("earlyok"), d.get("oearly")) if c.get("early") else "")
         k = runner.match_known(sig, known)
         if k:
